@@ -803,3 +803,174 @@ func runDgeev(t *vlib.T, n int, p prof, f family, ld [3]int, lw string) {
 	t.Outcome(fmt.Sprintf("%s %s %s", alg, hb, conv))
 	t.Detail(map[string]any{"ilaenv": log.String()})
 }
+
+// ---------------------------------------------------------------------------
+// Dhseqr on small Hessenberg matrices for which Dlahqr does not converge
+// (the fallback to Dlaqr04 on an enlarged copy, n < 49).
+
+// stagnantHess returns an n×n upper Hessenberg matrix with zero (kind 0, 1) or
+// tiny (kind 2) diagonal, integer strict upper triangle and subdiagonal entries
+// of size 2^sub (products of two of them underflow for sub <= -540). kind 1
+// reverses the order of the rows and columns' magnitudes (persymmetric flip).
+func stagnantHess(n, sub, kind, seed int) M {
+	l := lcgFor(110+kind, n, seed)
+	h := newM(n, n)
+	for i := 0; i < n; i++ {
+		for j := i + 1; j < n; j++ {
+			h.set(i, j, float64(l.Small(2)))
+		}
+		if i+1 < n {
+			h.set(i, i+1, float64(1+l.Next()%2)*float64(1-2*int(l.Next()&1)))
+			h.set(i+1, i, math.Ldexp(float64(1+l.Next()%4)*float64(1-2*int(l.Next()&1)), sub))
+		}
+		if kind == 2 {
+			h.set(i, i, math.Ldexp(float64(l.Small(2)), sub))
+		}
+	}
+	if kind == 1 {
+		// flip about the anti-diagonal: stays upper Hessenberg
+		f := newM(n, n)
+		for i := 0; i < n; i++ {
+			for j := 0; j < n; j++ {
+				f.set(i, j, h.at(n-1-j, n-1-i))
+			}
+		}
+		return f
+	}
+	return h
+}
+
+func genDhseqrNoConv(g *vlib.G) {
+	// the reported reproducer first
+	kase(g, "Dhseqr stagnant reproducer n=4", func(t *vlib.T) {
+		h := M{4, 4, []float64{0, -2, 0, 1, 4e-250, 0, -1, 1, 0, 2e-250, 0, -2, 0, 0, -1e-250, 0}}
+		runDhseqrNoConv(t, h, 0)
+	})
+	for n := 3; n <= p3(g, 6, 12, 16); n++ {
+		for _, sub := range []int{-830, -664, -996, -540} {
+			for kind := 0; kind < 3; kind++ {
+				for seed := 0; seed < p3(g, 1, 2, 4); seed++ {
+					for _, ldx := range []int{0, 2} {
+						n, sub, kind, seed, ldx := n, sub, kind, seed, ldx
+						kase(g, fmt.Sprintf("Dhseqr stagnant n=%d sub=2^%d kind=%d seed=%d ld=+%d", n, sub, kind, seed, ldx), func(t *vlib.T) {
+							runDhseqrNoConv(t, stagnantHess(n, sub, kind, seed), ldx)
+						})
+					}
+				}
+			}
+		}
+	}
+}
+
+func runDhseqrNoConv(t *vlib.T, h0 M, ldx int) {
+	n := h0.r
+	dim := fmax(n)
+	nrm := fro(h0)
+	ldh, ldz := ldOf(n, ldx), ldOf(n, off(ldx, 1))
+	// does Dlahqr itself converge on this input? (outcome label only)
+	// ... and does it fill H with NaNs on the way? (Like the reference, Dlahqr divides the
+	// first column v of the double-shift polynomial by |v0|+|v1|+|v2| without a guard; for
+	// these matrices the products of tiny subdiagonal entries underflow, v is exactly 0 and
+	// 0/0 spreads through H: finding dlahqr-underflow-nan.)
+	lahqrFails, lahqrNaN := false, false
+	{
+		hs := fromM(h0, ldh)
+		wr, wi := make([]float64, n), make([]float64, n)
+		var u int
+		if msg := catch(func() { u = impl.Dlahqr(true, false, n, 0, n-1, hs.d, ldh, wr, wi, 0, n-1, nil, 1) }); msg == "" && u > 0 {
+			lahqrFails = true
+			lahqrNaN = hasNaN(hs.toM().a)
+		}
+	}
+	f0 := nFindings
+	defer func() {
+		if lahqrNaN && t.Failed() && nFindings == f0 {
+			finding(t, "dlahqr-underflow-nan", "Dlahqr fills H with NaN on this input (0/0 in the unguarded normalisation of the shift vector); what follows is a consequence")
+		}
+	}()
+	outcome := "conv"
+	for _, job := range []lapack.SchurJob{lapack.EigenvaluesAndSchur, lapack.EigenvaluesOnly} {
+		for _, compz := range []lapack.SchurComp{lapack.SchurHess, lapack.SchurNone} {
+			ctx := fmt.Sprintf("job=%c compz=%c", job, compz)
+			hs := fromM(h0, ldh).snap()
+			var zs *S
+			var zd []float64
+			lz := 1
+			if compz == lapack.SchurHess {
+				zs = newS(n, n, ldz).snap()
+				zd, lz = zs.d, ldz
+			}
+			wr, wi := poisoned(n), poisoned(n)
+			lwork := max(1, n)
+			var unconv int
+			if msg := catch(func() {
+				unconv = impl.Dhseqr(job, compz, n, 0, n-1, hs.d, ldh, wr, wi, zd, lz, poisoned(lwork), lwork)
+			}); msg != "" {
+				// "bad shifts" / "not isolated" are internal consistency checks of Dlaqr1/Dlaqr5
+				// tripped by NaN shifts or NaN subdiagonals that a Dlahqr call inside Dlaqr04 produced
+				if (lahqrNaN || strings.Contains(msg, "bad shifts") || strings.Contains(msg, "not isolated")) && !strings.HasPrefix(msg, "HANG") {
+					finding(t, "dlahqr-underflow-nan", "Dlahqr fills H with NaN (0/0 in the unguarded normalisation of the shift vector) and Dhseqr then panics: %s %s [%s]", msg, lastStack, ctx)
+				} else if lahqrFails && !strings.HasPrefix(msg, "HANG") {
+					finding(t, "dhseqr-small-fallback-panics", "Dlahqr does not converge and the fallback of Dhseqr for n < 49 panics: %s %s [%s]", msg, lastStack, ctx)
+				} else {
+					failCall(t, "Dhseqr "+ctx, msg)
+				}
+				outcome = "panic"
+				continue
+			}
+			if i, ok := hs.padOK(n, n); !ok {
+				t.Failf("padding of h modified at flat index %d [%s]", i, ctx)
+			}
+			var z M
+			if zs != nil {
+				if i, ok := zs.padOK(n, n); !ok {
+					t.Failf("padding of z modified at flat index %d [%s]", i, ctx)
+				}
+				z = zs.toM()
+				chk(t, "noconv-ZtZ-I", ratio(orthCols(z), dim, 1), thresh, ctx)
+			}
+			hf := hs.toM()
+			if unconv == 0 {
+				if !pairsOK(t, wr, wi, ctx) {
+					continue
+				}
+				if job == lapack.EigenvaluesAndSchur {
+					schurFormOK(t, hf, wr, wi, ctx)
+					if zs != nil {
+						chk(t, "noconv-H-ZTZt", ratio(fro(sub(h0, mul(mul(z, hf), z.T()))), dim, nrm), thresh, ctx)
+					}
+				}
+				continue
+			}
+			// documented partial results
+			outcome = "unconverged"
+			if unconv < 0 || unconv > n {
+				t.Failf("unconverged=%d out of range [%s]", unconv, ctx)
+				continue
+			}
+			if hasNaN(wr[unconv:]) || hasNaN(wi[unconv:]) {
+				t.Failf("unconverged=%d but wr/wi[%d:] are not all set: %v %v [%s]", unconv, unconv, wr, wi, ctx)
+			}
+			if job == lapack.EigenvaluesAndSchur {
+				// final H upper Hessenberg, H[unconv:, unconv:] quasi-triangular with its eigenvalues in wr/wi[unconv:]
+				for i := 0; i < n; i++ {
+					for j := 0; j+1 < i; j++ {
+						if hf.at(i, j) != 0 {
+							t.Failf("final H[%d,%d]=%v is not upper Hessenberg [%s]", i, j, hf.at(i, j), ctx)
+						}
+					}
+				}
+				if unconv < n {
+					tr := hf.sub(unconv, n, unconv, n)
+					schurFormOK(t, tr, wr[unconv:], wi[unconv:], ctx+" trailing block")
+				}
+				if zs != nil {
+					// (initial H) U = U (final H), final Z = U
+					chk(t, "noconv-HU-UHf", ratio(fro(sub(mul(h0, z), mul(z, hf))), dim, nrm), thresh, ctx)
+				}
+			}
+		}
+	}
+	t.Nontrivial()
+	t.Outcome(fmt.Sprintf("lahqr-fails=%v nan=%v %s", lahqrFails, lahqrNaN, outcome))
+}
